@@ -13,7 +13,7 @@ sums and requires the same three-term form (base + size*event + arange(size)) wi
 """
 import ast
 
-from .common import (AnalysisError, Finding, RuleResult, ntext, walk_no_nested, call_name)
+from .common import (AnalysisError, Finding, RuleResult, ntext, walk_no_nested, call_name, accum)
 
 RULE = 'R31'
 TEXT = ('rule_var (writer) and DecVar.get (reader) use the same column layout '
@@ -74,12 +74,19 @@ def run(repo):
     if w_index is None:
         raise AnalysisError('rule_var: index.extend(start + size*edict[s] + arange(size)) not found')
     w = classify_index(w_index)
+    # the running sum recorded in ro_first: the name on the right of  <d>.ro_first = <name>
+    count_var = None
+    for n in walk_no_nested(rv.node):
+        if isinstance(n, ast.Assign) and isinstance(n.targets[0], ast.Attribute) and \
+                n.targets[0].attr == 'ro_first' and isinstance(n.value, ast.Name):
+            count_var = n.value.id
+    if count_var is None:
+        raise AnalysisError('rule_var: `<decision>.ro_first = <running sum>` not found')
     incs = {}
     for n in walk_no_nested(rv.node):
-        if isinstance(n, ast.AugAssign) and isinstance(n.op, ast.Add) and isinstance(n.target, ast.Name) \
-                and n.target.id in ('count', w['base']):
-            incs[n.target.id] = sorted(ntext(f).replace('dvar.', '').replace('self.', '')
-                                       for f in mul_factors(n.value))
+        a = accum(n)
+        if a is not None and a[0] in (count_var, w['base']):
+            incs[a[0]] = sorted(ntext(f).replace('dvar.', '').replace('self.', '') for f in mul_factors(a[1]))
     # ---- reader
     r_index = None
     for n in walk_no_nested(gt.node):
@@ -114,18 +121,18 @@ def run(repo):
     rec('reader base is ro_first', r['base'].endswith('ro_first'),
         'DecVar.get starts from `%s`, not from ro_first' % r['base'], gt)
     # running sums
-    inc_ok = 'count' in incs and w['base'] in incs and incs['count'] == incs[w['base']] and \
-        any('len(' in x for x in incs['count']) and 'size' in incs['count']
+    inc_ok = count_var in incs and w['base'] in incs and incs[count_var] == incs[w['base']] and \
+        any('len(' in x for x in incs[count_var]) and 'size' in incs[count_var]
     rec('writer: both running sums advance by size * len(event_adapt)', inc_ok,
-        'rule_var advances `count` by %s and `%s` by %s; both must be size * len(event_adapt)'
-        % (incs.get('count'), w['base'], incs.get(w['base'])), rv)
+        'rule_var advances `%s` by %s and `%s` by %s; both must be size * len(event_adapt)'
+        % (count_var, incs.get(count_var), w['base'], incs.get(w['base'])), rv)
     # ro_first assigned from count before count advances (same loop body, earlier statement)
     order_ok = False
     for n in walk_no_nested(rv.node):
         if isinstance(n, ast.For):
-            txt = [ntext(s) for s in n.body]
-            a = [i for i, t in enumerate(txt) if t.endswith('.ro_first = count')]
-            b = [i for i, t in enumerate(txt) if t.startswith('count +=')]
+            a = [i for i, s_ in enumerate(n.body) if isinstance(s_, ast.Assign) and
+                 isinstance(s_.targets[0], ast.Attribute) and s_.targets[0].attr == 'ro_first']
+            b = [i for i, s_ in enumerate(n.body) if (accum(s_) or (None,))[0] == count_var]
             if a and b and a[0] < b[0]:
                 order_ok = True
     rec('writer: ro_first recorded before the running sum advances', order_ok,
